@@ -517,111 +517,6 @@ Example mt_nonvacuous : invb wit_s = true /\ sup_of (bals wit_s) = [((1, 1), 12)
 Proof. split; vm_compute; reflexivity. Qed.
 End MtC12.
 
-(** * C12 over HISTORIES of the message-level models (no free-standing invariant).
-
-    For record, coinswap, random and nft the reachability invariant [invb] is DERIVED from the other groups'
-    message-level models ([Genesis/Link<Mod>.v]): an abstraction [abs] maps a state of that model to the
-    genesis-level state (renaming ids by an injective numbering, sorting the stores the way the KV store
-    iterates), and [reachable_<mod>] proves [invb (abs (run h)) = true] for every history [h] from that
-    model's proved invariants (plus small extra invariants proved over its step function).  The C12
-    statements then quantify over histories. *)
-From Irismod Require Genesis.LinkRecord Genesis.LinkCoinswap Genesis.LinkRandom Genesis.LinkNft.
-
-Module LinkRecordC12.
-Import Genesis.LinkRecord.
-
-(** hypothesis: the id order [ord] separates the ids in the store (SHA-256 is collision-free on them) *)
-Theorem reachable_record :
-  forall (ord : G.rid -> Z) (steps : list M.step),
-    separates ord (map fst (M.store (M.run M.init steps))) ->
-    G.invb ord (abs ord (M.run M.init steps)) = true.
-Proof. exact LinkRecord.reachable_record. Qed.
-Print Assumptions reachable_record.
-
-Theorem record_history_export_validates :
-  forall (ord : G.rid -> Z) (steps : list M.step),
-    separates ord (map fst (M.store (M.run M.init steps))) ->
-    G.validate (G.export (abs ord (M.run M.init steps))) = true.
-Proof. exact LinkRecord.record_history_export_validates. Qed.
-Print Assumptions record_history_export_validates.
-
-Theorem record_history_import_total :
-  forall (ord : G.rid -> Z) (steps : list M.step),
-    separates ord (map fst (M.store (M.run M.init steps))) ->
-    G.import ord (G.export (abs ord (M.run M.init steps))) <> None.
-Proof. exact LinkRecord.record_history_import_total. Qed.
-Print Assumptions record_history_import_total.
-
-(** every record the history created is readable after export -> import under an id of the same record *)
-Theorem record_history_queries_partial :
-  forall (ord : G.rid -> Z) (steps : list M.step) (s' : G.state),
-    G.import ord (G.export (abs ord (M.run M.init steps))) = Some s' ->
-    forall id r, M.query (M.run M.init steps) id = Some r -> exists c, G.query s' (r, c) = Some r.
-Proof. exact LinkRecord.record_history_queries_partial. Qed.
-Print Assumptions record_history_queries_partial.
-End LinkRecordC12.
-
-Module LinkCoinswapC12.
-Import Genesis.LinkCoinswap.
-
-(** from the coinswap model's [Inv] and the lpt numbering [Dense] of the initial state; the parameters of the
-    initial state pass Params.Validate (the model has no parameter update); the sequence stays a uint64 *)
-Theorem reachable_coinswap :
-  forall (rk : Z -> Z), (forall a b, rk a = rk b -> a = b) -> (forall a, 0 <= rk a) ->
-  forall (s0 : M.state) (ms : list M.msg),
-    MV.Inv s0 -> Dense s0 -> G.params_ok (abs_params rk (M.par s0)) = true -> M.seq (M.run s0 ms) < G.two64 ->
-    G.invb (abs rk (M.run s0 ms)) = true.
-Proof. exact LinkCoinswap.reachable_coinswap. Qed.
-Print Assumptions reachable_coinswap.
-
-Theorem coinswap_history_roundtrip :
-  forall (rk : Z -> Z), (forall a b, rk a = rk b -> a = b) -> (forall a, 0 <= rk a) ->
-  forall (s0 : M.state) (ms : list M.msg),
-    MV.Inv s0 -> Dense s0 -> G.params_ok (abs_params rk (M.par s0)) = true -> M.seq (M.run s0 ms) < G.two64 ->
-    G.import (G.export (abs rk (M.run s0 ms))) = Some (abs rk (M.run s0 ms)).
-Proof. exact LinkCoinswap.coinswap_history_roundtrip. Qed.
-Print Assumptions coinswap_history_roundtrip.
-End LinkCoinswapC12.
-
-Module LinkRandomC12.
-Import Genesis.LinkRandom.
-
-(** [sane] is the random model's well-formedness of histories (block times non-zero, one request per consumer
-    and block where the harness needs it); no further hypothesis *)
-Theorem reachable_random :
-  forall (sha : M.hin -> Z) (P : Z -> bool) (tbl : list ((Z * Z) * Z)) (steps : list M.step),
-    MP.sane P [] steps -> G.invb tbl (abs tbl (M.run sha M.init steps)) = true.
-Proof. exact LinkRandom.reachable_random. Qed.
-Print Assumptions reachable_random.
-
-Theorem random_history_roundtrip :
-  forall (sha : M.hin -> Z) (P : Z -> bool) (tbl : list ((Z * Z) * Z)) (steps : list M.step),
-    MP.sane P [] steps ->
-    G.import tbl (G.export (abs tbl (M.run sha M.init steps))) = Some (abs tbl (M.run sha M.init steps)).
-Proof. exact LinkRandom.random_history_roundtrip. Qed.
-Print Assumptions random_history_roundtrip.
-End LinkRandomC12.
-
-Module LinkNftC12.
-Import Genesis.LinkNft.
-
-(** no hypothesis on the history at all *)
-Theorem reachable_nft :
-  forall (rkc rkt : Z -> Z), (forall a b, rkc a = rkc b -> a = b) ->
-  forall (blobc : M.class -> Z) (blobt : M.tmeta -> Z) (steps : list M.step),
-    G.invb (abs rkc rkt blobc blobt (M.run M.init steps)) = true.
-Proof. exact LinkNft.reachable_nft. Qed.
-Print Assumptions reachable_nft.
-
-Theorem nft_history_roundtrip :
-  forall (rkc rkt : Z -> Z), (forall a b, rkc a = rkc b -> a = b) ->
-  forall (blobc : M.class -> Z) (blobt : M.tmeta -> Z) (steps : list M.step),
-    G.import false (G.export (abs rkc rkt blobc blobt (M.run M.init steps)))
-    = Some (abs rkc rkt blobc blobt (M.run M.init steps)).
-Proof. exact LinkNft.nft_history_roundtrip. Qed.
-Print Assumptions nft_history_roundtrip.
-End LinkNftC12.
-
 (** * The checker never raises an alarm on observations that agree with the model
     ([Genesis/PassCheck.v]): for every state satisfying the module's invariant, [check_<m>] applied to the run
     the MODEL itself produces returns (-1, -1, 0). *)
